@@ -2048,7 +2048,10 @@ class RedunBackendDb(RedunBackend):
         with self.with_session() as session:
             value_row = session.get(Value, value_hash)
             if value_row:
-                # Value already recorded.
+                # Value already recorded. An interrupted recording may have committed the Value
+                # without its Task or File row, so make sure that row exists as well.
+                if isinstance(value, (BaseFile, BaseTask)):
+                    self._record_special_redun_values([value], [value_hash])
                 return value_hash
 
             type_name = self.type_registry.get_type_name(type(value))
